@@ -53,7 +53,16 @@ impl Handle {
         }
     }
     pub fn flush(&self) -> FlushWait {
+        // every third request goes through the handle as applications often hold it: behind an `Arc` (method
+        // resolution must end at the queue's own flush) or behind a shared reference; which one is decided by the
+        // run's own choice counter (deterministic per run)
+        let turn = detsim::choices();
         match self {
+            Handle::Typed(q) if turn % 3 == 1 => {
+                let a = Arc::new(q.clone());
+                a.flush_async()
+            }
+            Handle::Typed(q) if turn % 3 == 2 => (&q).flush_async(),
             Handle::Typed(q) => EntrySink::<IdEntry>::flush_async(q),
             Handle::Boxed(b) => AnyEntrySink::flush_async(b),
         }
